@@ -71,7 +71,7 @@ CLAIMED = {
   "note": 'Trusted: clang AST, z3/cvc5, encoding assumptions listed in the evidence; preconditions written in contracts/*.py; the C++ class methods and Python functions that compose these kernels are glue outside the contracts (a change there is invisible to this check). Bounded stand-ins are never counted as proved.',
   "technique": 'contract-based deductive verification of the real kernel code (VC generator over the clang AST, sidecar contracts, lockstep equivalence with the YAML definitions; z3/cvc5; replay on the compiled kernels)'},
  "C19": {
-  "text": "Deductive, per instruction: every `case CODE_*` block of ForthMachineOf<int64_t,int32_t>::internal_run is extracted from the clang AST of the working tree as its own unit (inline helpers of the class inlined from their own AST) and proved, for all machine states satisfying the machine invariant, to (a) access the data stack / do-stack / recursion stack only inside their extents, never divide by zero or trap, (b) re-establish the invariant at every exit, set the documented error code exactly when the documented condition holds, and (c) for the stack, arithmetic and comparison words, compute the documented result (floor division and modulo included) and leave the rest of the stack unchanged. ForthInputBuffer::read/seek/skip keep 0 <= pos <= length and move exactly as documented; ForthOutputBufferOf<int64_t> writes stay inside the (re)allocated buffer, never go through a pointer taken before a reallocation, and preserve what was already written (growth settings cannot change results); reset() clears every piece of run state. Programs are not enumerated; the compile-time half and step/run/resume sequencing are not covered.",
+  "text": "Deductive, per instruction: every `case CODE_*` block of ForthMachineOf<int64_t,int32_t>::internal_run is extracted from the clang AST of the working tree as its own unit (inline helpers of the class inlined from their own AST) and proved, for all machine states satisfying the machine invariant, to (a) access the data stack / do-stack / recursion stack only inside their extents, never divide by zero or trap, (b) re-establish the invariant at every exit, set the documented error code exactly when the documented condition holds, and (c) for the stack, arithmetic and comparison words, compute the documented result (floor division and modulo included) and leave the rest of the stack unchanged. ForthInputBuffer::read/seek/skip keep 0 <= pos <= length and move exactly as documented; ForthOutputBufferOf<int64_t> writes stay inside the (re)allocated buffer, never go through a pointer taken before a reallocation, and preserve what was already written (growth settings cannot change results); reset() clears every piece of run state. The compile-time half (tokenizer, compiler) and whole-program sequencing are not under deductive contract; they are exercised by the bounded Engine N family only.",
   "ref": "DESIGN.md section 5 (C19), section 2.4",
   "note": "Trusted: compiled bytecode is well-formed (operands in range), maybe_resize meets its contract, external calls on buffer objects only write current_error_, signed overflow treated as mathematical; see evidence trusted_base. One known finding (shift amounts).",
   "technique": "contract-based deductive verification of the extracted instruction blocks and buffer methods (self-written VC generator over the clang AST, z3/cvc5)"},
@@ -106,6 +106,7 @@ N_FAMILIES = {
  "C11": "valid_accept (layouts obeying every documented rule pass validityerror), valid_reject (one documented rule broken at one node: reported, or refused by the constructor) and, in EVERY family, the layout returned for a valid input passes validityerror",
  "C12": "every family: the call neither crashes nor hangs (each case runs in a forked child with a 20 s alarm), the input layouts are byte-for-byte unchanged afterwards and the result reads the same after its inputs have been dropped; invalid_nocrash (to_list / deep_copy / depth queries on layouts with one broken rule never crash); thorough tier: the same under AddressSanitizer",
  "C14": "builder (random well-nested values through the real ArrayBuilder incl. records with differing fields, tuples, strings, None, mixed numbers: final to_list equals the appended values up to the documented unification, length, validity; snapshots taken in between equal the values appended so far and read the same at the end, for initial buffer sizes 1, 2, 8, 1024) and builder_malformed (unbalanced end, field/index outside record/tuple raise)",
+ "C19": "forth (random small programs -- stack/arithmetic/comparison/bitwise words, if/else, do/loop/+loop with i, begin/until, begin/while/repeat, user words with exit, variables, typed little/big-endian, repeated, varint and zigzag reads to the stack or to an output, seek/skip/len/pos/end, typed output writes, +<-, rewind, halt, pause -- on the real ForthMachine64 in three schedules (run resumed after every pause, single-stepped, mixed) and with output buffers starting at 1, 2 or 1024 items: error status, stack, variables, outputs and input positions equal those of the reference interpreter akvlib/nat/forthref.py written from the documented semantics)",
  "C18": "virtual (the operations of the other families through a real VirtualArray with a counting generator and no cache / an unbounded cache / a cache that evicts after k hits, optionally with a first generation that fails), virtual_enforce (declared length+form: length/depth/form queries never invoke the generator; a too-short or wrong-form generation is refused and leaves neither an inferred form nor a cached array), partitioned (IrregularlyPartitionedArray getitem_at, getitem_range with any start/stop/step, repartition incl. empty partitions, against the concatenated list)",
 }
 
